@@ -6,6 +6,7 @@
 package verifrt
 
 import (
+	"bytes"
 	"runtime"
 	"sync/atomic"
 	"time"
@@ -59,6 +60,18 @@ var (
 func SetStall(at uint64, d time.Duration) {
 	stallDur.Store(int64(d))
 	stallAt.Store(at)
+}
+
+// onRequestGoroutine: the stall fault models a slow or descheduled *request
+// handler*. A goroutine the code under test started in the background is never
+// stalled: it may hold a lock that handlers of later requests need, and a
+// sleeper that holds a contended lock wedges a synctest bubble (goroutines
+// blocked on a mutex are not durably blocked, so fake time would never reach
+// the end of the sleep).
+func onRequestGoroutine() bool {
+	var buf [4096]byte
+	n := runtime.Stack(buf[:], false)
+	return bytes.Contains(buf[:n], []byte("fasthttp.(*Server).serveConn"))
 }
 
 // SetPreempt arms (n > 0) or disarms (0) forced yields in shared mode.
@@ -143,7 +156,7 @@ func Yield(site int) {
 			sharedTripped.Store(true)
 			panic(WorkCapTrip{m})
 		}
-		if st := stallAt.Load(); st != 0 && m == st {
+		if st := stallAt.Load(); st != 0 && m == st && onRequestGoroutine() {
 			Stalls.Add(1)
 			time.Sleep(time.Duration(stallDur.Load()))
 		}
